@@ -8,7 +8,7 @@ func init() {
 			{Pkg: "codec", Harness: "refenc", Weight: 2, Note: "forward direction: Encode (validation on and off) == independent reference encoder; NO fault and NO schedule dimension - a pure comparison on generated values, counted separately (probe reference-comparisons)"},
 		},
 		QuickS: 30, ThoroughS: 600,
-		Rule: "reencode: as C02/serix with validation always on - one zoo type (13 of 14; the array-of-non-bytes type cannot be decoded at all), one valid encoding, one fault class (truncate every offset / structural-flip every marked byte x 5 variants / inflated prefixes / 24 sampled data flips / 16 sampled splices); whenever Decode(WithValidation) accepts the faulted bytes b and reports n: unless the decoded value holds a timestamp outside the int64-nanosecond range (excluded by the statement; probe accepted-but-excluded), Encode(WithValidation) of the decoded value must succeed and equal b[:n]. refenc: one zoo value per run; the reference encoder is ~250 lines written from the documented layout (little-endian fixed width numbers, 0/1 bool, length prefixes of the configured width, uint8/uint32 type codes, uint32 optional marker, 32-byte little-endian uint256, uint64 nanosecond timestamps, map entries and auto-sorted slices in byte-lexical order) and driven by a hand-written declarative schema of the zoo types; Encode with and without validation must equal it byte for byte, and validating Decode of the reference bytes must return the value and consume everything. distinct = distinct (type, encoding, fault class, accepted/rejected counts) hash",
+		Rule:  "reencode: as C02/serix with validation always on - one zoo type (13 of 14; the array-of-non-bytes type cannot be decoded at all), one valid encoding, one fault class (truncate every offset / structural-flip every marked byte x 5 variants / inflated prefixes / 24 sampled data flips / 16 sampled splices); whenever Decode(WithValidation) accepts the faulted bytes b and reports n: unless the decoded value holds a timestamp outside the int64-nanosecond range (excluded by the statement; probe accepted-but-excluded), Encode(WithValidation) of the decoded value must succeed and equal b[:n]. refenc: one zoo value per run; the reference encoder is ~250 lines written from the documented layout (little-endian fixed width numbers, 0/1 bool, length prefixes of the configured width, uint8/uint32 type codes, uint32 optional marker, 32-byte little-endian uint256, uint64 nanosecond timestamps, map entries and auto-sorted slices in byte-lexical order) and driven by a hand-written declarative schema of the zoo types; Encode with and without validation must equal it byte for byte, and validating Decode of the reference bytes must return the value and consume everything. distinct = distinct (type, encoding, fault class, accepted/rejected counts) hash",
 		Real:  []string{"serializer/serix Encode/Decode with validation", "serializer.Serializer/Deserializer, ArrayRules validators"},
 		Stubs: append([]string{"storage under the decoder (fault injector over valid encodings)", "reference encoder + schema (harness/codec/refenc.go, zoo.go) as the model of the wire layout"}, commonStubs...),
 		Assume: []string{
